@@ -78,3 +78,15 @@ def check(ob, timeout_ms=20000):
             txt = ""
         return ("sat", txt)
     return (str(r), "")
+
+
+_named_enums: dict = {}
+
+
+def enum_sort(name, values):
+    """z3 forbids re-declaring an enumeration sort: cache by (name, values)."""
+    key = (name, tuple(values))
+    if key not in _named_enums:
+        n = name if not any(k[0] == name for k in _named_enums) else f"{name}_{len(_named_enums)}"
+        _named_enums[key] = z3.EnumSort(n, list(values))
+    return _named_enums[key]
